@@ -565,6 +565,10 @@ pub const SELECT_EXPRS: &[&str] = &[
     // a variable rebound from the record on every evaluation
     "(set \"f\" .g (format_time .id :f))", "(set \"sep\" .g (join .arr :sep))", "(set \"d\" .g (split .s :d))",
     "(set \"k\" .g (get .obj :k))",
+    // references to the parent input where a stage or a function has derived the context
+    "^.", "^.id", "^^.g", "(set \"v\" 1 ^.)", "(map . (set \"v\" 1 ^.))", "(define \"q\" ^.id @q)",
+    "(| .arr (| . ^^.id))", "(map .arr (set \"w\" . ^.id))", "(filter .arr (= ^.id 1))",
+    "(set \"v\" .id (map .arr (+ :v ^.id)))",
 ];
 
 pub const REGEX_SELECT_EXPRS: &[&str] = &[
@@ -598,6 +602,9 @@ pub const SET_OPTS: &[&str] = &[
     // macros that call a macro their caller binds (8), or one that is pre-set (9) and
     // shadowed for some values only (10 needs 9)
     "@each=(map .arr @f)", "@unit=\"m\"", "@show=(concat (stringify .id) @unit)",
+    // plain variables whose expressions look at the input - there is none when they are
+    // calculated - and still have a value (11, 12, 13)
+    "dflt=(default .g \"none\")", "isnum=(stringify (number? .))", "isobj=(? (object? .) 1 2)",
 ];
 
 pub const SET_USERS: &[&str] = &[
@@ -606,6 +613,7 @@ pub const SET_USERS: &[&str] = &[
     "(? .t (define \"f\" (+ . 100) @each) (define \"f\" (stringify .) @each))",
     "(? (= .g \"a\") (define \"unit\" .g @show) @show)",
     "(? (> .n 0) (define \"inc\" (- . 1) (map .arr @inc)) (map .arr @inc))",
+    "(concat :dflt \"-\" .g)", "(stringify :isnum)", "(+ :isobj .id)",
 ];
 
 #[derive(Clone, Copy, Debug)]
@@ -688,6 +696,15 @@ fn set_users_for(chosen: &[usize]) -> Vec<usize> {
     if has(3) {
         v.push(10);
     }
+    if has(11) {
+        v.push(11);
+    }
+    if has(12) {
+        v.push(12);
+    }
+    if has(13) {
+        v.push(13);
+    }
     v
 }
 
@@ -706,7 +723,8 @@ pub fn gen_pipe(rng: &mut Rng, wish: &PipeWish) -> Pipe {
     // --set
     let mut chosen_sets: Vec<usize> = Vec::new();
     if rng.chance(1, 4) {
-        let n = rng.range(1, 3);
+        // (one in ten of these defines many names)
+        let n = if rng.chance(1, 10) { rng.range(5, 8) } else { rng.range(1, 3) };
         for _ in 0..n {
             let i = rng.below(SET_OPTS.len());
             if i == 10 && !chosen_sets.contains(&9) {
@@ -733,7 +751,10 @@ pub fn gen_pipe(rng: &mut Rng, wish: &PipeWish) -> Pipe {
         opts.push(vec![format!("--filter={f}")]);
     }
     let mut selects = 0;
+    // one pipeline in thirty is wide: more columns than a test would write
+    let wide = rng.chance(1, 30);
     let want_selects = match style {
+        _ if wide => rng.range(9, 14),
         Style::Csv => rng.range(1, 4),
         _ => {
             if rng.chance(1, 2) {
@@ -776,7 +797,7 @@ pub fn gen_pipe(rng: &mut Rng, wish: &PipeWish) -> Pipe {
     }
     if wish.max_class >= Class::Buffering {
         if rng.chance(1, 5) {
-            let n = rng.range(1, 2);
+            let n = if rng.chance(1, 15) { rng.range(3, 5) } else { rng.range(1, 2) };
             for _ in 0..n {
                 let dir = *rng.pick(&["", "=DESC", "=asc", "=ASC", "=desc"]);
                 if !names.is_empty() && rng.chance(1, 5) {
